@@ -92,6 +92,7 @@ type FuncCtx struct {
 	inlined   map[string]bool
 	callees   map[string]bool
 	entrySnap *Snapshot
+	endNames  map[string]Val // result names while the 'end' anchor runs
 	promote   map[types.Object]bool // local array variables that are sliced: they live in the heap (see promotedVar)
 	bodyPos   token.Pos
 	curContract *FuncContract
@@ -126,6 +127,9 @@ type State struct {
 	curPkg *PkgInfo
 	tsub   map[string]types.Type
 	havocked map[string]bool
+	rgLate bool      // rely-guarantee mode: at least one interference point passed
+	rgInAtomic bool
+	rgPre  *Snapshot // state right before the pending atomic step (guarantee is checked against it)
 }
 
 func (st *State) clone() *State {
@@ -255,6 +259,10 @@ func (st *State) oblige(kind, detail, goal string, pos token.Pos) {
 func (st *State) heapGet(name, sort string) string {
 	if t, ok := st.heap[name]; ok {
 		return t
+	}
+	if st.rgLate {
+		// rely-guarantee mode: a heap first touched after interference points is unconstrained (not its entry value)
+		return st.heapHavoc(name, sort)
 	}
 	c := "H_" + sanitize(name) + "_0"
 	st.fc.declare(c, sort)
@@ -598,8 +606,22 @@ func fieldComps(structT types.Type, field string) (types.Type, []Comp, int) {
 	return nil, nil, -1
 }
 
+// ghostFieldHeap: the heap of a declared ghost field (integer-valued ghost state per object), or "".
+func ghostFieldHeap(structT types.Type, field string) string {
+	k := typeKey(structT)
+	if ghostFieldReg[k+"."+field] {
+		return "P!" + k + "!.$" + field
+	}
+	return ""
+}
+
 func (st *State) loadField(heap map[string]string, ref string, structT types.Type, field string) Val {
 	ft, comps, _ := fieldComps(structT, field)
+	if ft == nil {
+		if gh := ghostFieldHeap(structT, field); gh != "" {
+			return vInt(sSel(st.heapIn(heap, gh, "(Array Int Int)"), ref), nil)
+		}
+	}
 	if ft == nil {
 		panic(vcErr("no field " + field + " in " + structT.String()))
 	}
@@ -671,6 +693,21 @@ func (st *State) allocRef() string {
 // allocObject allocates an object of struct type t together with its interior objects (zero-initialised).
 func (st *State) allocObject(t types.Type) string {
 	ref := st.allocRef()
+	// ghost fields of a new object start at 0
+	prefix := typeKey(t) + "."
+	var gfs []string
+	for k := range ghostFieldReg {
+		if strings.HasPrefix(k, prefix) {
+			gfs = append(gfs, strings.TrimPrefix(k, prefix))
+		}
+	}
+	sort.Strings(gfs)
+	for _, f := range gfs {
+		gh := "P!" + typeKey(t) + "!.$" + f
+		h := st.heapGet(gh, "(Array Int Int)")
+		st.noteWrite(gh, ref)
+		st.heapSet(gh, "(Array Int Int)", sStore(h, ref, "0"), ref)
+	}
 	if s, ok := t.Underlying().(*types.Struct); ok {
 		for i := 0; i < s.NumFields(); i++ {
 			if ft := s.Field(i).Type(); isInterior(ft) {
